@@ -192,6 +192,10 @@ harnesses! {
         assert!(k2.bs == usize::MAX, "C08.kmer_macro.t32");
         let k3 = kmer!("G", u64);
         assert!(k3.bs == 2, "C08.kmer_macro.g_u64");
+        // u128 storage, literal longer than one word: 33 x C then G then T (35 symbols)
+        let k4 = kmer!("CCCCCCCCCCCCCCCCCCCCCCCCCCCCCCCCCGT", u128);
+        let want: u128 = 0x5555_5555_5555_5555u128 | (1u128 << 64) | (2u128 << 66) | (3u128 << 68);
+        assert!(k4.bs == want, "C08.kmer_macro.u128_longer_than_a_word");
         reach!("end");
     }
 }
